@@ -19,7 +19,10 @@ want = [a for a in sys.argv[1:] if not a.isdigit()]
 SWAPS = [(r" \+ ", " - "), (r" - ", " + "), (r" \* ", " / "), (r" / ", " * "), (r" < ", " <= "), (r" <= ", " < "), (r" > ", " >= "), (r" >= ", " > "),
          (r" == ", " != "), (r" != ", " == "), (r" && ", " || "), (r" \|\| ", " && "), (r"\btrue\b", "false"), (r"\bfalse\b", "true"),
          (r"(?<![\w.])0(?![\w.])", "1"), (r"(?<![\w.])1(?![\w.])", "2"), (r"\bif !", "if "), (r"\.is_some\(\)", ".is_none()"), (r"\.is_none\(\)", ".is_some()"),
-         (r" \+= ", " -= "), (r" -= ", " += "), (r"T::zero\(\)", "T::one()"), (r"T::one\(\)", "T::zero()"), (r"\.min\(", ".max("), (r"\.max\(", ".min(")]
+         (r" \+= ", " -= "), (r" -= ", " += "), (r"T::zero\(\)", "T::one()"), (r"T::one\(\)", "T::zero()"), (r"\.min\(", ".max("), (r"\.max\(", ".min("),
+         (r"\.0\b(?!\.)", ".1"), (r"\.1\b(?!\.)", ".0"), (r"\bSome\(([a-z_]+)\.clone\(\)\)", "None"), (r" < ", " > "), (r" > ", " < "),
+         # statement deletion: an assignment to a field of the receiver / through a reference, a compound assignment
+         (r"(?m)^[ \t]*(?:self|state)\.[A-Za-z_.]+ (?:\+|-|\*|/)?= [^;\n]*;\n", ""), (r"(?m)^[ \t]*\*[a-z_]+ (?:\+|-|\*|/)?= [^;\n]*;\n", "")]
 def code_spans(txt):
     """character ranges inside fn bodies of the non-test part (attributes, generics, doc comments and the test module excluded)"""
     cut = txt.find("#[cfg(test)]"); end = len(txt) if cut < 0 else cut
@@ -41,7 +44,7 @@ def mutants(path):
             if not any(a <= m.start() < b for a, b in spans): continue
             if any(a <= m.start() < b for a, b in lines_comment): continue
             line = txt.count("\n", 0, m.start()) + 1
-            out.append((line, m.group(0).strip(), rep.strip(), txt[:m.start()] + rep + txt[m.end():]))
+            out.append((line, m.group(0).strip()[:60], rep.strip() or "(statement deleted)", txt[:m.start()] + rep + txt[m.end():]))
     return out
 files = []
 for pid in sorted(set(bodies.ENTRIES) | set(bodies.ASSERTS)):
